@@ -3,9 +3,30 @@
    Model: model/M_Params.v (Parameter objects in a store, ParameterSet with all of its caches,
    ParameterModelMapper), spec: spec/S_Params.v (the parameter table and the brute-force views). *)
 From Coq Require Import ZArith List Bool Lia.
-From Sky Require Import Result PyList M_Params S_Params P_Params P_ParamsViews P_ParamsWorld P_ParamsMap P_ParamsRec.
+From Sky Require Import Result PyList M_Params S_Params P_Params P_ParamsViews P_ParamsWorld P_ParamsMap P_ParamsRec P_ParamsArgs P_ParamsRefine P_ParamsE2E.
 Import ListNotations.
 Open Scope Z_scope.
+
+(* T0 (end to end): REFINEMENT.  The world of Parameter objects, store locations and caches behaves,
+   for every operation sequence, exactly like the value-level specification interpreter `s_step` of
+   S_Params.v (parameter sets = plain lists of parameters, no identity, no caches; a rejected operation
+   is a no-op): same abstract world after every step, same exception (or none) at every step. *)
+Theorem C04_refinement : forall src ops,
+  abs (run (init src) ops) = s_run (s_init src) ops
+  /\ map (fun we => (abs (fst we), snd we)) (trace (init src) ops) = s_trace (s_init src) ops.
+Proof. exact refinement_reachable. Qed.
+Print Assumptions C04_refinement.
+
+Theorem C04_refinement_step : forall w o,
+  WorldOk w ->
+  abs (fst (step w o)) = fst (s_step (abs w) o) /\ snd (step w o) = snd (s_step (abs w) o).
+Proof. exact refinement_step. Qed.
+Print Assumptions C04_refinement_step.
+
+(* the abstraction is what the consistency invariant says it is *)
+Theorem C04_abs_set : forall st s ps, Consistent st s ps -> abs_set st s = ps.
+Proof. exact abs_set_Consistent. Qed.
+Print Assumptions C04_abs_set.
 
 (* T1: after ANY operation sequence (any length, any number of parameters, sets and models; failed
    operations included) every parameter set of the world — the mapper's global set and every set made
@@ -99,6 +120,164 @@ Print Assumptions C04_src_params_recarray.
 Theorem C04_src_model_idxs : forall m, get_src_model_idxs m None = s_positions 0 (mp_src m).
 Proof. exact src_idxs_positions. Qed.
 Print Assumptions C04_src_model_idxs.
+
+(* T2e: create_src_params_recarray for ANY form of the `sources` argument (None / int32 array of model
+   indices / source objects): rows for exactly the selected models, in the stated order *)
+Theorem C04_src_params_recarray_sel : forall st m ps vec vals sources,
+  Consistent st (mp_gps m) ps -> matrix_ok m -> aliases_ok m ->
+  s_values (table_of ps) vec = Some vals ->
+  (forall arr, sources = Some (inl arr) -> forall z, In z arr -> 0 <= z < Z.of_nat (length (mp_src m))) ->
+  exists uniq rows,
+    create_src_params_recarray m vec sources = Ok (uniq, rows)
+    /\ unique_source_param_names m = Ok uniq
+    /\ map fst rows = sel_idxs m sources
+    /\ (forall smidx cells, In (smidx, cells) rows ->
+          exists i arow, smidx = Z.of_nat i /\ nth_error (mp_names m) i = Some arow
+            /\ cells = map (s_cell arow vals (s_gpidxs 0 0 (table_of ps))) uniq).
+Proof. exact src_params_recarray_sel. Qed.
+Print Assumptions C04_src_params_recarray_sel.
+
+Theorem C04_src_model_idxs_sel : forall m srcs,
+  get_src_model_idxs m (Some srcs) = filter (fun smidx => mem smidx srcs) (s_positions 0 (mp_src m)).
+Proof. exact src_idxs_selection. Qed.
+Print Assumptions C04_src_model_idxs_sel.
+
+(* T2f: get_local_param_is_global_floating_param_mask: a local name is flagged iff some model maps a
+   FLOATING global parameter under that name *)
+Theorem C04_local_is_floating_mask : forall st m ps names,
+  Consistent st (mp_gps m) ps -> matrix_ok m ->
+  length (local_is_floating_mask m names) = length names
+  /\ forall k name, nth_error names k = Some name ->
+       (nth_error (local_is_floating_mask m names) k = Some true <->
+        exists arow j p, In arow (mp_names m) /\ nth_error arow j = Some (Some name)
+                         /\ nth_error ps j = Some p /\ p_isfixed p = false).
+Proof. exact local_is_floating_mask_ok. Qed.
+Print Assumptions C04_local_is_floating_mask.
+
+(* T3a: the argument paths.  Parameter(name, initial, valmin, valmax, isfixed): every combination *)
+Theorem C04_param_new : forall d,
+  param_new d =
+  let fx := match d_isfixed d with
+            | Some b => b
+            | None => match d_valmin d, d_valmax d with Some _, Some _ => false | _, _ => true end
+            end in
+  if fx then Ok (mkParam (d_name d) (d_initial d) true (d_valmin d) (d_valmax d) (d_initial d))
+  else match d_valmin d, d_valmax d with
+       | Some lo, Some hi =>
+           if (lo <=? d_initial d) && (d_initial d <=? hi)
+           then Ok (mkParam (d_name d) (d_initial d) false (Some lo) (Some hi) (d_initial d))
+           else Err ValueError
+       | _, _ => Err TypeError
+       end.
+Proof. exact param_new_spec. Qed.
+Print Assumptions C04_param_new.
+
+(* make_params_floating / make_floating for every form of the request entry (None, scalar, triple with
+   any of its members None): given settings are used — also when they are 0 —, missing ones inherited *)
+Theorem C04_make_floating_forms : forall p e,
+  let '(i, lo, hi) := parse_fentry e in
+  (i, lo, hi) = match e with
+                | FNone => (None, None, None)
+                | FInit v => (Some v, None, None)
+                | FTriple i lo hi => (i, lo, hi)
+                end
+  /\ make_floating p i lo hi =
+     match opt_or lo (p_valmin p), opt_or hi (p_valmax p) with
+     | Some lo', Some hi' =>
+         let i' := match e with
+                   | FNone | FTriple None _ _ => p_value p
+                   | FInit v | FTriple (Some v) _ _ => v
+                   end in
+         if (lo' <=? i') && (i' <=? hi')
+         then Ok (mkParam (p_name p) i' false (Some lo') (Some hi') i')
+         else Err ValueError
+     | _, _ => Err ValueError
+     end.
+Proof. exact float_entry_spec. Qed.
+Print Assumptions C04_make_floating_forms.
+
+Theorem C04_make_fixed_forms : forall p i,
+  make_fixed p i =
+  match i with
+  | None => mkParam (p_name p) (p_value p) true (p_valmin p) (p_valmax p) (p_value p)
+  | Some v =>
+      match p_valmin p, p_valmax p with
+      | Some lo, Some hi =>
+          if (lo <=? v) && (v <=? hi) then mkParam (p_name p) v true (Some lo) (Some hi) v
+          else mkParam (p_name p) v true None None v
+      | lo, hi => mkParam (p_name p) v true lo hi v
+      end
+  end.
+Proof. exact make_fixed_spec. Qed.
+Print Assumptions C04_make_fixed_forms.
+
+(* T4 (composition): for EVERY operation sequence, the views of the resulting world of objects are the
+   brute-force readings of the world the specification interpreter computes from the same sequence
+   (no invariant left as a premise: Consistent / matrix_ok / aliases_ok are discharged by T1, the
+   abstraction by T0) *)
+Theorem C04_e2e_views_set : forall src ops r t,
+  a_get (s_run (s_init src) ops) r = Ok t ->
+  exists s, get_set (run (init src) ops) r = Ok s /\
+  let T := table_of t in
+  ps_mask s = s_mask T
+  /\ floating_mask s = map negb (s_mask T)
+  /\ ps_fxn s = s_fixed_names T
+  /\ ps_fln s = s_floating_names T
+  /\ params_name_list s = s_fixed_names T ++ s_floating_names T
+  /\ ps_fxv s = s_fixed_values T
+  /\ fixed_params_idxs s = s_fixed_idxs T
+  /\ floating_params_idxs s = s_floating_idxs T
+  /\ n_params s = zlen T
+  /\ n_fixed_params s = zlen (s_fixed_names T)
+  /\ n_floating_params s = zlen (s_floating_names T)
+  /\ floating_param_initials (w_store (run (init src) ops)) s = Ok (s_floating_initials T)
+  /\ floating_param_bounds (w_store (run (init src) ops)) s = Ok (s_floating_bounds T)
+  /\ (forall n, get_fixed_pidx s n = match s_fixed_pidx T n with Some i => Ok i | None => Err KeyError end)
+  /\ (forall n, get_floating_pidx s n = match s_floating_pidx T n with Some i => Ok i | None => Err KeyError end).
+Proof. exact e2e_views_set. Qed.
+Print Assumptions C04_e2e_views_set.
+
+Theorem C04_e2e_params_dict : forall src ops r t vec vals,
+  a_get (s_run (s_init src) ops) r = Ok t -> s_values (table_of t) vec = Some vals ->
+  exists s, get_set (run (init src) ops) r = Ok s
+    /\ forall n, dict_get (get_params_dict s vec) n = s_lookup (s_params_map (table_of t) vals) n.
+Proof. exact e2e_params_dict. Qed.
+Print Assumptions C04_e2e_params_dict.
+
+Theorem C04_e2e_model_params_dict : forall src ops vec vals midx arow,
+  s_values (table_of (a_g (s_run (s_init src) ops))) vec = Some vals ->
+  nth_error (a_names (s_run (s_init src) ops)) midx = Some arow ->
+  exists d, create_model_params_dict (w_map (run (init src) ops)) vec (Z.of_nat midx) = Ok d
+    /\ forall x, dict_get d x = s_lookup (s_local arow vals) x.
+Proof. exact e2e_model_params_dict. Qed.
+Print Assumptions C04_e2e_model_params_dict.
+
+Theorem C04_e2e_src_params_recarray : forall src ops vec vals sources,
+  s_values (table_of (a_g (s_run (s_init src) ops))) vec = Some vals ->
+  (forall arr, sources = Some (inl arr) -> forall z, In z arr -> 0 <= z < Z.of_nat (length (a_src (s_run (s_init src) ops)))) ->
+  exists uniq rows,
+    create_src_params_recarray (w_map (run (init src) ops)) vec sources = Ok (uniq, rows)
+    /\ strictly_sorted uniq
+    /\ (forall u, In u uniq <->
+          exists i arow, nth_error (a_src (s_run (s_init src) ops)) i = Some true
+                         /\ nth_error (a_names (s_run (s_init src) ops)) i = Some arow /\ In u (somes arow))
+    /\ map fst rows = match sources with
+                      | None => s_positions 0 (a_src (s_run (s_init src) ops))
+                      | Some (inl arr) => arr
+                      | Some (inr srcs) => filter (fun smidx => mem smidx srcs) (s_positions 0 (a_src (s_run (s_init src) ops)))
+                      end
+    /\ (forall smidx cells, In (smidx, cells) rows ->
+          exists i arow, smidx = Z.of_nat i /\ nth_error (a_names (s_run (s_init src) ops)) i = Some arow
+            /\ cells = map (s_cell arow vals (s_gpidxs 0 0 (table_of (a_g (s_run (s_init src) ops))))) uniq).
+Proof. exact e2e_src_params_recarray. Qed.
+Print Assumptions C04_e2e_src_params_recarray.
+
+(* the remaining premise of T2b-T2e, "one vector entry per floating parameter" (s_values = Some), is
+   needed: the record array refuses any other vector, the other views do not check it *)
+Theorem C04_recarray_rejects_wrong_length : forall m vec sources,
+  zlen vec <> n_floating_params (mp_gps m) -> create_src_params_recarray m vec sources = Err ValueError.
+Proof. exact recarray_rejects_wrong_length. Qed.
+Print Assumptions C04_recarray_rejects_wrong_length.
 
 (* T3: rejections.  Value outside a floating parameter's bounds / change of a fixed value *)
 Theorem C04_rejects_value : forall p v,
@@ -215,3 +394,31 @@ Proof.
   - repeat split; try (vm_compute; reflexivity).
     exact (proj1 (proj2 (reachable_ok [false; true; true] ex_ops))).
 Qed.
+
+(* the specification interpreter on the same history: same exceptions, and the abstract world computed
+   from values only is the abstraction of the world of objects; zero is a value like any other *)
+Example C04_refinement_nonvacuous :
+  let a := s_run (s_init [false; true; true]) ex_ops in
+  map snd (s_trace (s_init [false; true; true]) ex_ops)
+    = [None; None; None; Some ValueError; Some KeyError; None; None; None; None; None; Some ValueError]
+  /\ map p_name (a_g a) = [0; 1; 2] /\ map p_isfixed (a_g a) = [false; true; false]
+  /\ map (map p_isfixed) (a_sets a) = [[false; true; true]; [false; true; false]]
+  /\ a = abs (run (init [false; true; true]) ex_ops)
+  /\ make_floating (mkParam 0 5 true None None 5) (Some 0) (Some (-1)) (Some 6)
+     = Ok (mkParam 0 0 false (Some (-1)) (Some 6) 0)
+  /\ make_floating (mkParam 0 5 true (Some 0) (Some 6) 5) None None None
+     = Ok (mkParam 0 5 false (Some 0) (Some 6) 5).
+Proof. cbv zeta. repeat split; vm_compute; reflexivity. Qed.
+
+(* guards that are needed (witnesses): a too short vector makes get_params_dict silently drop a floating
+   parameter, a too long one makes create_model_params_dict raise, an int32 source array with an index
+   outside the models makes create_src_params_recarray raise *)
+Example C04_guards_needed :
+  let w := run (init [false; true; true]) ex_ops in
+  let g := mp_gps (w_map w) in
+  dict_get (get_params_dict g [100]) 2 = None
+  /\ dict_get (get_params_dict g [100; 101]) 2 = Some 101
+  /\ create_model_params_dict (w_map w) [100; 101; 102] 2 = Err IndexError
+  /\ create_src_params_recarray (w_map w) [100; 101] (Some (inl [1; 7])) = Err IndexError
+  /\ create_src_params_recarray (w_map w) [100] None = Err ValueError.
+Proof. cbv zeta. repeat split; vm_compute; reflexivity. Qed.
